@@ -22,6 +22,21 @@
 //!         s satoshi gift cell, g1/g2/g3 near misses of the satoshi rule (plain), w dao withdrawing cell
 //! tx    = <input>,<input>…|<cell>,<cell>…   (empty list `-`);  txs = tx;tx;…
 //! ```
+//! rfee <hdrs> <rawtx>                    DaoCalculator::transaction_fee on a RAW transaction: the
+//!                                        classification of every input (is_dao_type_script,
+//!                                        is_withdrawing_input) and the error paths (header deps,
+//!                                        witness format, header-dep index, unknown headers) are the
+//!                                        calculator's / the model's own     -> ok <v> | err-* | panic
+//! rdao <ser> <start> <len> <base> <rem> <parent_number> <ar> <c> <s> <u> <hdrs> <rawtxs>
+//!                                        dao_field_with_current_epoch on raw transactions (also the
+//!                                        satoshi rule of modified_occupied_capacity: is_genesis,
+//!                                        is_cellbase, lock args)            -> ok <hex> ar c s u | …
+//! rawin = <cell>:<ty>:<data>:<info>:<sat>   ty = n | 2 bits (hash_type is Type, code hash is the dao
+//!         type hash); data = n (load_cell_data None) | <len>.<read_u64>; info = n |
+//!         <header id>.<block number>.<tx index>; sat = 0|1 (lock args = satoshi_pubkey_hash)
+//! rawtx = <rawin>,…|<cell>,…|<witness>,…|<header ids>   witness = m (not a WitnessArgs) | e (no
+//!         input_type) | <len>.<read_u64> (input_type bytes);  hdrs = <id>.<number>.<ar>,… (the
+//!         headers the data loader knows; other ids are hashes it does not know)
 //! The calculator runs over a mock data loader (the three `ckb_traits` provider traits) holding
 //! the synthetic headers / epoch exts of the op.
 //!
@@ -355,6 +370,283 @@ fn build_rtx(t: &TxS, consensus: &Consensus, dl: &mut MockDL) -> ResolvedTransac
     }
 }
 
+// ------------------------------------------------------------------------------ raw transactions
+
+#[derive(Clone, Debug)]
+struct RawIn {
+    cell: CellS,
+    ty: Option<(bool, bool)>,
+    data: Option<(u64, u64)>,
+    info: Option<(u64, u64, u64)>,
+    sat: bool,
+}
+
+#[derive(Clone, Debug, PartialEq)]
+enum RawWit {
+    Malformed,
+    Empty,
+    It(u64, u64),
+}
+
+#[derive(Clone, Debug)]
+struct RawTx {
+    ins: Vec<RawIn>,
+    outs: Vec<CellS>,
+    wits: Vec<RawWit>,
+    deps: Vec<u64>,
+}
+
+type Hdrs = Vec<(u64, u64, u64)>;
+
+fn fmt_dots(xs: &[u64]) -> String {
+    xs.iter().map(|x| x.to_string()).collect::<Vec<_>>().join(".")
+}
+
+fn fmt_raw_in(i: &RawIn) -> String {
+    format!(
+        "{}:{}:{}:{}:{}",
+        fmt_cell(&i.cell),
+        match i.ty {
+            None => "n".to_string(),
+            Some((a, b)) => format!("{}{}", a as u8, b as u8),
+        },
+        i.data.map(|(l, v)| fmt_dots(&[l, v])).unwrap_or_else(|| "n".into()),
+        i.info.map(|(h, n, x)| fmt_dots(&[h, n, x])).unwrap_or_else(|| "n".into()),
+        i.sat as u8
+    )
+}
+
+fn fmt_raw_wit(w: &RawWit) -> String {
+    match w {
+        RawWit::Malformed => "m".into(),
+        RawWit::Empty => "e".into(),
+        RawWit::It(l, v) => fmt_dots(&[*l, *v]),
+    }
+}
+
+fn fmt_raw_tx(t: &RawTx) -> String {
+    format!(
+        "{}|{}|{}|{}",
+        fmt_list(&t.ins, fmt_raw_in, ","),
+        fmt_list(&t.outs, fmt_cell, ","),
+        fmt_list(&t.wits, fmt_raw_wit, ","),
+        fmt_nums(&t.deps)
+    )
+}
+
+fn fmt_hdrs(h: &Hdrs) -> String {
+    fmt_list(h, |(a, b, c)| fmt_dots(&[*a, *b, *c]), ",")
+}
+
+fn parse_dots(s: &str) -> Vec<u64> {
+    s.split('.').map(num).collect()
+}
+
+fn parse_raw_in(s: &str) -> RawIn {
+    let fs: Vec<&str> = s.split(':').collect();
+    assert!(fs.len() == 8, "malformed raw input");
+    let cell = parse_cell(&fs[0..4]);
+    let ty = match fs[4] {
+        "n" => None,
+        "00" => Some((false, false)),
+        "01" => Some((false, true)),
+        "10" => Some((true, false)),
+        "11" => Some((true, true)),
+        _ => panic!("malformed raw input type"),
+    };
+    assert!(ty.is_some() == cell.type_args.is_some(), "malformed raw input: type script / type args");
+    let two = |s: &str| -> (u64, u64) {
+        let v = parse_dots(s);
+        assert!(v.len() == 2, "malformed pair");
+        (v[0], v[1])
+    };
+    let data = if fs[5] == "n" { None } else { Some(two(fs[5])) };
+    if let Some((l, _)) = data {
+        assert!(l <= 4096, "malformed raw input: data too long");
+    }
+    let info = if fs[6] == "n" {
+        None
+    } else {
+        let v = parse_dots(fs[6]);
+        assert!(v.len() == 3, "malformed tx info");
+        Some((v[0], v[1], v[2]))
+    };
+    let sat = match fs[7] {
+        "0" => false,
+        "1" => true,
+        _ => panic!("malformed sat flag"),
+    };
+    assert!(!sat || cell.lock_args == 20, "malformed: satoshi lock args are 20 bytes");
+    RawIn { cell, ty, data, info, sat }
+}
+
+fn parse_raw_wit(s: &str) -> RawWit {
+    match s {
+        "m" => RawWit::Malformed,
+        "e" => RawWit::Empty,
+        _ => {
+            let v = parse_dots(s);
+            assert!(v.len() == 2 && v[0] <= 4096, "malformed witness");
+            RawWit::It(v[0], v[1])
+        }
+    }
+}
+
+fn parse_raw_tx(s: &str) -> RawTx {
+    let parts: Vec<&str> = s.split('|').collect();
+    assert!(parts.len() == 4, "malformed raw tx");
+    RawTx {
+        ins: parse_list(parts[0], ',', parse_raw_in),
+        outs: parse_list(parts[1], ',', |c| parse_cell(&c.split(':').collect::<Vec<_>>())),
+        wits: parse_list(parts[2], ',', parse_raw_wit),
+        deps: parse_nums(parts[3]),
+    }
+}
+
+fn parse_hdrs(s: &str) -> Hdrs {
+    parse_list(s, ',', |x| {
+        let v = parse_dots(x);
+        assert!(v.len() == 3, "malformed header entry");
+        (v[0], v[1], v[2])
+    })
+}
+
+/// the header standing for header id `h` (the first table entry with that id wins, as in the model)
+fn raw_header(hdrs: &Hdrs, h: u64) -> (HeaderView, bool) {
+    match hdrs.iter().find(|e| e.0 == h) {
+        Some((_, n, ar)) => (dao_header(*n, *ar, 10_000 + h), true),
+        None => (dao_header(0, 0, 20_000_000 + h), false),
+    }
+}
+
+/// `len` bytes whose `LittleEndian::read_u64` is `v` when `len == 8`; otherwise the bytes of `v`
+/// cut / padded with 0x01 (non-zero, so that a reader that forgets the length check sees a value)
+fn raw_bytes(len: u64, v: u64) -> Bytes {
+    let le = v.to_le_bytes();
+    Bytes::from((0..len as usize).map(|k| if k < 8 { le[k] } else { 1u8 }).collect::<Vec<u8>>())
+}
+
+fn build_raw_rtx(t: &RawTx, hdrs: &Hdrs, consensus: &Consensus, dl: &mut MockDL) -> ResolvedTransaction {
+    for (h, _, _) in hdrs {
+        let (hv, _) = raw_header(hdrs, *h);
+        dl.headers.insert(hv.hash(), hv);
+    }
+    let ep = EpochNumberWithFraction::new(0, 0, 1);
+    let mut metas = vec![];
+    let mut inputs = vec![];
+    for (i, ins) in t.ins.iter().enumerate() {
+        let lock = if ins.sat {
+            Script::new_builder()
+                .code_hash(other_code_hash())
+                .hash_type(ScriptHashType::Data)
+                .args(Bytes::from(consensus.satoshi_pubkey_hash.0.to_vec()).pack())
+                .build()
+        } else {
+            script_with_args(ins.cell.lock_args, other_code_hash(), ScriptHashType::Data, 0xAA)
+        };
+        let type_ = ins.ty.map(|(ht, code)| {
+            script_with_args(
+                ins.cell.type_args.unwrap(),
+                if code { consensus.dao_type_hash() } else { other_code_hash() },
+                if ht { ScriptHashType::Type } else if i % 2 == 0 { ScriptHashType::Data1 } else { ScriptHashType::Data },
+                0xBB,
+            )
+        });
+        let output = CellOutput::new_builder()
+            .capacity(Capacity::shannons(ins.cell.cap))
+            .lock(lock)
+            .type_(type_.pack())
+            .build();
+        let data = ins.data.map(|(l, v)| raw_bytes(l, v));
+        let op = OutPoint::new(Byte32::from_slice(&[0x56u8; 32]).unwrap(), i as u32);
+        let mut meta = CellMetaBuilder::from_cell_output(output, data.clone().unwrap_or_default()).out_point(op.clone()).build();
+        meta.data_bytes = ins.cell.data_bytes;
+        if data.is_none() {
+            meta.mem_cell_data = None;
+            meta.mem_cell_data_hash = None;
+        }
+        meta.transaction_info = ins.info.map(|(h, n, x)| TransactionInfo::new(n, ep, raw_header(hdrs, h).0.hash(), x as usize));
+        metas.push(meta);
+        inputs.push(CellInput::new(op, 0));
+    }
+    let witnesses: Vec<packed::Bytes> = t
+        .wits
+        .iter()
+        .enumerate()
+        .map(|(k, w)| match w {
+            RawWit::Malformed => (if k % 2 == 0 { Bytes::new() } else { Bytes::from(vec![1u8, 2, 3]) }).pack(),
+            RawWit::Empty => WitnessArgs::new_builder().build().as_bytes().pack(),
+            RawWit::It(l, v) => WitnessArgs::new_builder().input_type(Some(raw_bytes(*l, *v)).pack()).build().as_bytes().pack(),
+        })
+        .collect();
+    let header_deps: Vec<Byte32> = t.deps.iter().map(|h| raw_header(hdrs, *h).0.hash()).collect();
+    let mut tb = TransactionBuilder::default().inputs(inputs).witnesses(witnesses).header_deps(header_deps);
+    for o in &t.outs {
+        tb = tb
+            .output(build_output(o, false, false, consensus))
+            .output_data(Bytes::from(vec![0u8; o.data_bytes as usize]).pack());
+    }
+    ResolvedTransaction {
+        transaction: tb.build(),
+        resolved_cell_deps: vec![],
+        resolved_inputs: metas,
+        resolved_dep_groups: vec![],
+    }
+}
+
+/// Spec reading of raw transactions (independent of the model): a NervosDAO cell in the
+/// withdrawing phase (dao type script, 8 data bytes with a non-zero block number) may only be
+/// consumed with its withdrawing header among the header deps, a well-formed witness pointing at
+/// the deposit header among the header deps, both headers known, deposit before withdrawal; it
+/// then counts `occupied + floor(counted * AR_w / AR_d)`; every other cell counts its capacity.
+/// `Err(())`: a withdrawing input that must not be accepted; `Ok(None)`: outside the arithmetic
+/// domain; else ((Σ maximum withdraw, Σ input capacity), Σ freed occupied, Σ added occupied).
+fn spec_raw_totals(txs: &[RawTx], hdrs: &Hdrs) -> Result<Option<((u128, u128), u128, u128)>, ()> {
+    let known = |h: u64| hdrs.iter().find(|e| e.0 == h).map(|e| (e.1, e.2));
+    let (mut maxw, mut incap, mut freed, mut added) = (0u128, 0u128, 0u128, 0u128);
+    let mut outside = false;
+    for t in txs {
+        for (k, i) in t.ins.iter().enumerate() {
+            let cap = i.cell.cap as u128;
+            incap += cap;
+            let sat = i.sat && matches!(i.info, Some((_, 0, 0)));
+            freed += if sat { cap * 6 / 10 } else { occ128(&i.cell) };
+            let dao_w = i.ty == Some((true, true)) && matches!(i.data, Some((8, v)) if v > 0);
+            if !dao_w {
+                maxw += cap;
+                continue;
+            }
+            let Some((wh, _, _)) = i.info else { return Err(()) };
+            if !t.deps.contains(&wh) {
+                return Err(());
+            }
+            let Some(RawWit::It(8, idx)) = t.wits.get(k).cloned() else { return Err(()) };
+            if idx >= t.deps.len() as u64 {
+                return Err(());
+            }
+            let (Some((dn, da)), Some((wn, wa))) = (known(t.deps[idx as usize]), known(wh)) else { return Err(()) };
+            if dn >= wn {
+                return Err(());
+            }
+            let occ = occ128(&i.cell);
+            if cap < occ || da == 0 {
+                outside = true;
+                continue;
+            }
+            let q = (cap - occ) * wa as u128 / da as u128;
+            if q >= 1u128 << 64 {
+                outside = true;
+                continue;
+            }
+            maxw += q + occ;
+        }
+        for o in &t.outs {
+            added += occ128(o);
+        }
+    }
+    Ok(if outside { None } else { Some(((maxw, incap), freed, added)) })
+}
+
 fn epoch_ext(start: u64, len: u64, base: u64, rem: u64) -> EpochExt {
     EpochExt::new_builder()
         .number(1)
@@ -571,6 +863,60 @@ impl Exec {
                             }
                         }
                         format!("ok {}", v.as_u64())
+                    }
+                    Err(e) => e.into(),
+                }
+            }
+            "rfee" => {
+                let hdrs = parse_hdrs(ts[1]);
+                let tx = parse_raw_tx(ts[2]);
+                let mut dl = MockDL::default();
+                let rtx = build_raw_rtx(&tx, &hdrs, &self.consensus, &mut dl);
+                let consensus = &self.consensus;
+                match guarded(|| DaoCalculator::new(consensus, &dl).transaction_fee(&rtx)) {
+                    Ok(v) => {
+                        match spec_raw_totals(&[tx.clone()], &hdrs) {
+                            Err(()) => out.oracle_fail("dao-withdraw-malformed-accepted", line),
+                            Ok(None) => out.count("rfee-oracle-skipped-withdraw-domain"),
+                            Ok(Some((ins, _, _))) => {
+                                let outs: u128 = tx.outs.iter().map(|o| o.cap as u128).sum();
+                                if ins.0 < outs || v.as_u64() as u128 != ins.0 - outs {
+                                    out.oracle_fail("tx-fee", line);
+                                }
+                                if ins.0 > ins.1 {
+                                    out.count("rfee-with-interest");
+                                }
+                            }
+                        }
+                        format!("ok {}", v.as_u64())
+                    }
+                    Err(e) => e.into(),
+                }
+            }
+            "rdao" => {
+                let v: Vec<u64> = ts[1..11].iter().map(|s| num(s)).collect();
+                let (ser, st, len, base, rem, pn, ar, c, s, u) = (v[0], v[1], v[2], v[3], v[4], v[5], v[6], v[7], v[8], v[9]);
+                let hdrs = parse_hdrs(ts[11]);
+                let txs = parse_list(ts[12], ';', parse_raw_tx);
+                let mut dl = MockDL::default();
+                let mut consensus = self.consensus.clone();
+                consensus.secondary_epoch_reward = Capacity::shannons(ser);
+                let rtxs: Vec<ResolvedTransaction> = txs.iter().map(|t| build_raw_rtx(t, &hdrs, &consensus, &mut dl)).collect();
+                let parent = hb()
+                    .number(pn)
+                    .dao(pack_dao_data(ar, Capacity::shannons(c), Capacity::shannons(s), Capacity::shannons(u)))
+                    .build();
+                let ep = epoch_ext(st, len, base, rem);
+                let r = guarded(|| DaoCalculator::new(&consensus, &dl).dao_field_with_current_epoch(rtxs.iter(), &parent, &ep));
+                match r {
+                    Ok(b) => {
+                        let (ar2, c2, s2, u2) = extract_dao_data(b.clone());
+                        let (c2, s2, u2) = (c2.as_u64(), s2.as_u64(), u2.as_u64());
+                        match spec_raw_totals(&txs, &hdrs) {
+                            Err(()) => out.oracle_fail("dao-withdraw-malformed-accepted", line),
+                            Ok(totals) => oracle_dao_with(out, line, (ser, st, len, base, rem, pn), (ar, c, s, u), totals, (ar2, c2, s2, u2)),
+                        }
+                        format!("ok {} {} {} {} {}", hex(b.as_slice()), ar2, c2, s2, u2)
                     }
                     Err(e) => e.into(),
                 }
@@ -898,6 +1244,19 @@ fn oracle_dao(
     (ser, st, len, base, rem, pn): (u64, u64, u64, u64, u64, u64),
     (ar, c, s, u): (u64, u64, u64, u64),
     txs: &[TxS],
+    res: (u64, u64, u64, u64),
+) {
+    oracle_dao_with(out, line, (ser, st, len, base, rem, pn), (ar, c, s, u), spec_tx_totals(txs), res)
+}
+
+/// the same with the per-block totals ((Σ maximum withdraw, Σ input capacity), Σ freed, Σ added)
+/// computed by the caller (`None`: outside the withdraw domain)
+fn oracle_dao_with(
+    out: &mut Out,
+    line: &str,
+    (ser, st, len, base, rem, pn): (u64, u64, u64, u64, u64, u64),
+    (ar, c, s, u): (u64, u64, u64, u64),
+    totals: Option<((u128, u128), u128, u128)>,
     (ar2, c2, s2, u2): (u64, u64, u64, u64),
 ) {
     let n = pn as u128 + 1;
@@ -908,7 +1267,7 @@ fn oracle_dao(
     let n = n as u64;
     let g = spec_g(st, rem, base, n);
     let g2 = spec_g2(st, len, ser, n).unwrap();
-    let Some(((maxw, incap), freed, added)) = spec_tx_totals(txs) else {
+    let Some(((maxw, incap), freed, added)) = totals else {
         out.count("dao-oracle-skipped-withdraw-domain");
         return;
     };
@@ -1046,6 +1405,209 @@ fn gen_tx(rng: &mut Rng) -> TxS {
     }
 }
 
+/// raw transactions over one header table: NervosDAO withdrawing inputs, well formed or with ONE
+/// aspect off (type script hash type / code hash, data length / zero block number / unloadable data,
+/// transaction info missing / not among the header deps, witness missing / not a WitnessArgs /
+/// without input_type / of 7 or 9 bytes, index at or beyond the header deps / at the withdrawing
+/// header, a header the loader does not know, deposit not before withdrawal), deposit cells,
+/// satoshi cells and their near misses, plain cells
+fn gen_raw_txs(rng: &mut Rng, nt: u64) -> (Hdrs, Vec<RawTx>) {
+    // header ids 1..=nh are known to the loader; nh+1, nh+2 are not
+    let nh = rng.range(2, 5);
+    let base_ar = gen_ar(rng);
+    let mut hdrs: Hdrs = vec![];
+    let mut number = rng.below(1000);
+    let mut ar = base_ar;
+    for h in 1..=nh {
+        hdrs.push((h, number, ar));
+        number += match rng.below(6) {
+            0 => 0,
+            _ => 1 + rng.below(500),
+        };
+        ar = match rng.below(8) {
+            0 => ar,
+            1 => gen_ar(rng),
+            _ => ar.saturating_add(rng.below(1_000_000_000_000)),
+        };
+    }
+    if rng.chance(1, 12) {
+        // a duplicate id (the first entry wins) — harmless nondeterminism must not show
+        let dup = hdrs[0];
+        hdrs.push((dup.0, dup.1 + 7, dup.2));
+    }
+    let mut txs = vec![];
+    for _ in 0..nt {
+        let mut deps: Vec<u64> = (1..=nh).collect();
+        rng.shuffle(&mut deps);
+        deps.truncate(rng.range(1, nh) as usize);
+        if rng.chance(1, 5) {
+            deps.push(nh + 1); // a header dep the loader does not know
+        }
+        if rng.chance(1, 8) {
+            let d = deps[0];
+            deps.push(d); // duplicate dep
+        }
+        let ni = rng.below(4);
+        let mut ins = vec![];
+        let mut wits: Vec<RawWit> = vec![];
+        let mut cut: Option<usize> = None;
+        for k in 0..ni as usize {
+            let mut cell = gen_cell(rng, false);
+            let plain_wit = match rng.below(4) {
+                0 => RawWit::Malformed,
+                1 => RawWit::Empty,
+                _ => RawWit::It(rng.below(12), rng.below(5)),
+            };
+            match rng.below(10) {
+                0 | 1 => {
+                    // plain cell, sometimes with an (unrelated) type script
+                    let ty = cell.type_args.map(|_| *rng.pick(&[(false, false), (true, false), (false, true)]));
+                    let data = match rng.below(4) {
+                        0 => None,
+                        1 => Some((8, rng.below(3))),
+                        _ => Some((rng.below(20), rng.below(3))),
+                    };
+                    let info = if rng.chance(1, 4) { None } else { Some((rng.range(1, nh + 2), rng.below(3), rng.below(3))) };
+                    ins.push(RawIn { cell, ty, data, info, sat: false });
+                    wits.push(plain_wit);
+                }
+                2 => {
+                    // satoshi gift cell and its near misses
+                    cell.lock_args = 20;
+                    let (n, x, sat) = *rng.pick(&[(0u64, 0u64, true), (0, 0, true), (0, 1, true), (1, 0, true), (0, 0, false), (1, 1, true)]);
+                    let ty = cell.type_args.map(|_| (false, false));
+                    let info = if rng.chance(1, 8) { None } else { Some((rng.range(1, nh + 2), n, x)) };
+                    ins.push(RawIn { cell, ty, data: Some((0, 0)), info, sat });
+                    wits.push(plain_wit);
+                }
+                3 => {
+                    // deposit cell: dao type script, 8 zero bytes -> counts at its capacity
+                    if cell.type_args.is_none() {
+                        cell.type_args = Some(0);
+                    }
+                    cell.data_bytes = 8;
+                    cell.cap = (occ128(&cell).min(1u128 << 62) as u64) + rng.below(1_000_000) * 100_000_000;
+                    let info = Some((deps[rng.below(deps.len() as u64) as usize], rng.range(1, 1000), rng.range(1, 3)));
+                    ins.push(RawIn { cell, ty: Some((true, true)), data: Some((8, 0)), info, sat: false });
+                    wits.push(if rng.chance(1, 2) { RawWit::It(8, rng.below(deps.len() as u64)) } else { plain_wit });
+                }
+                _ => {
+                    // withdrawing cell: well formed, then at most one aspect off
+                    if cell.type_args.is_none() {
+                        cell.type_args = Some(0);
+                    }
+                    if rng.chance(9, 10) {
+                        cell.data_bytes = 8;
+                    }
+                    if rng.chance(4, 5) {
+                        cell.cap = (occ128(&cell).min(1u128 << 62) as u64) + rng.below(1_000_000) * 100_000_000;
+                    }
+                    // deposit / withdrawing headers: positions in deps, deposit earlier in the table when possible
+                    let known: Vec<usize> = (0..deps.len()).filter(|p| deps[*p] <= nh).collect();
+                    let (mut dpos, mut wpos) = if known.is_empty() {
+                        (0usize, 0usize)
+                    } else {
+                        let a = known[rng.below(known.len() as u64) as usize];
+                        let mut b = known[rng.below(known.len() as u64) as usize];
+                        if deps[a] == deps[b] && rng.chance(9, 10) {
+                            if let Some(p) = known.iter().find(|p| deps[**p] != deps[a]) {
+                                b = *p;
+                            }
+                        }
+                        if deps[a] <= deps[b] { (a, b) } else { (b, a) }
+                    };
+                    let mut ty = Some((true, true));
+                    let wd_entry = hdrs.iter().find(|e| e.0 == deps[wpos]).cloned().unwrap_or((0, 0, 0));
+                    let mut data = Some((8u64, wd_entry.1.max(1)));
+                    let mut info = Some((deps[wpos], wd_entry.1, rng.range(1, 3)));
+                    let mut sat = false;
+                    let mut wit = Some(RawWit::It(8, dpos as u64));
+                    match rng.below(72) {
+                        0 => ty = Some((false, true)),
+                        1 => ty = Some((true, false)),
+                        2 => ty = Some((false, false)),
+                        3 => data = None,
+                        4 => data = Some((8, 0)),
+                        5 => data = Some((7, 5)),
+                        6 => data = Some((9, 5)),
+                        7 => data = Some((0, 0)),
+                        8 => info = None,
+                        9 => info = Some((nh + 2, 5, 1)), // block hash not among the header deps
+                        10 => {
+                            // a known header that is not among the deps (if there is one)
+                            if let Some(h) = (1..=nh).find(|h| !deps.contains(h)) {
+                                info = Some((h, 5, 1));
+                            }
+                        }
+                        11 => wit = Some(RawWit::Malformed),
+                        12 => wit = Some(RawWit::Empty),
+                        13 => wit = Some(RawWit::It(7, dpos as u64)),
+                        14 => wit = Some(RawWit::It(9, dpos as u64)),
+                        15 => wit = Some(RawWit::It(0, 0)),
+                        16 => wit = None,
+                        17 => wit = Some(RawWit::It(8, deps.len() as u64)),
+                        18 => wit = Some(RawWit::It(8, deps.len() as u64 - 1)),
+                        19 => wit = Some(RawWit::It(8, *rng.pick(&[u64::MAX, 1u64 << 32, (1u64 << 32) + dpos as u64, 1u64 << 63]))),
+                        20 => {
+                            dpos = wpos; // deposit header = withdrawing header
+                            wit = Some(RawWit::It(8, dpos as u64));
+                        }
+                        21 => {
+                            std::mem::swap(&mut dpos, &mut wpos); // deposit after withdrawal
+                            wit = Some(RawWit::It(8, dpos as u64));
+                            info = Some((deps[wpos], 5, 1));
+                        }
+                        22 | 25 | 26 => {
+                            // deposit header unknown to the loader
+                            if !deps.iter().any(|h| *h > nh) {
+                                deps.push(nh + 1);
+                            }
+                            if let Some(p) = deps.iter().position(|h| *h > nh) {
+                                wit = Some(RawWit::It(8, p as u64));
+                            }
+                        }
+                        23 | 27 | 28 => {
+                            // withdrawing header unknown to the loader
+                            if !deps.iter().any(|h| *h > nh) {
+                                deps.push(nh + 1);
+                            }
+                            if let Some(p) = deps.iter().position(|h| *h > nh) {
+                                info = Some((deps[p], 5, 1));
+                            }
+                        }
+                        24 => {
+                            // also a satoshi cell
+                            cell.lock_args = 20;
+                            sat = true;
+                            info = Some((deps[wpos], 0, 0));
+                        }
+                        _ => {}
+                    }
+                    ins.push(RawIn { cell, ty, data, info, sat });
+                    match wit {
+                        Some(w) => wits.push(w),
+                        None => {
+                            if cut.is_none() {
+                                cut = Some(k);
+                            }
+                            wits.push(RawWit::Empty);
+                        }
+                    }
+                }
+            }
+        }
+        if let Some(k) = cut {
+            wits.truncate(k);
+        } else if rng.chance(1, 10) {
+            wits.push(RawWit::It(8, 0)); // one witness more than inputs
+        }
+        let no = rng.below(3);
+        let outs = (0..no).map(|_| gen_cell(rng, true)).collect();
+        txs.push(RawTx { ins, outs, wits, deps });
+    }
+    (hdrs, txs)
+}
+
 /// epoch parameters + a block number at / next to the remainder boundaries
 fn gen_epoch_and_number(rng: &mut Rng, ser: u64) -> (u64, u64, u64, u64, u64) {
     let start = match rng.below(8) {
@@ -1143,7 +1705,11 @@ fn gen_arith_op(rng: &mut Rng) -> String {
             };
             if let Kind::W { dn, da, wn, wa } = i.kind { format!("withdraw {} {} {} {} {}", fmt_cell(&i.cell), dn, da, wn, wa) } else { unreachable!() }
         }
-        9 | 10 => format!("fee {}", fmt_tx(&gen_tx(rng))),
+        9 => format!("fee {}", fmt_tx(&gen_tx(rng))),
+        10 => {
+            let (hdrs, txs) = gen_raw_txs(rng, 1);
+            format!("rfee {} {}", fmt_hdrs(&hdrs), fmt_raw_tx(&txs[0]))
+        }
         11 => {
             let (st, len, base, rem, n) = gen_epoch_and_number(rng, 0);
             format!("primary {} {} {} {} {}", st, len, base, rem, n)
@@ -1153,6 +1719,22 @@ fn gen_arith_op(rng: &mut Rng) -> String {
             let (st, len, base, rem, n) = gen_epoch_and_number(rng, ser);
             let (_, c, _, u) = gen_dao(rng);
             format!("secondary {} {} {} {} {} {} {} {}", ser, st, len, base, rem, n, c, u)
+        }
+        14 | 15 => {
+            let ser = gen_ser(rng);
+            let (st, len, base, rem, n) = gen_epoch_and_number(rng, ser);
+            let pn = if rng.chance(1, 40) { u64::MAX } else { n.saturating_sub(1) };
+            let (ar, c, s, u) = gen_dao(rng);
+            let nt = match rng.below(6) {
+                0 => 0,
+                1 | 2 => 1,
+                _ => rng.range(2, 3),
+            };
+            let (hdrs, txs) = gen_raw_txs(rng, nt);
+            format!(
+                "rdao {} {} {} {} {} {} {} {} {} {} {} {}",
+                ser, st, len, base, rem, pn, ar, c, s, u, fmt_hdrs(&hdrs), fmt_list(&txs, fmt_raw_tx, ";")
+            )
         }
         _ => {
             let ser = gen_ser(rng);
